@@ -92,7 +92,10 @@ fn main() {
     }
   }
   // panics inside the implementation are observations, not crashes of the harness
-  std::panic::set_hook(Box::new(|_| {}));
+  // (VHARNESS_PANICS=1 keeps the default hook, for debugging the harness itself)
+  if std::env::var("VHARNESS_PANICS").is_err() {
+    std::panic::set_hook(Box::new(|_| {}));
+  }
   let rep = match cfg.property.as_str() {
     "C01" => c01::run(&cfg),
     "C02" => c02::run(&cfg),
